@@ -258,6 +258,24 @@ def replay(prop, path, relevant):
     w = json.load(open(path))['witness']
     if w.get('mode') in ('plain', 'absent'):
         return replay_plain(prop, path, w)
+    if w.get('mode') == 'framing':
+        from harness.checks import c15, muxprops
+        tr = w['trace']
+        sizes = [len(c) for c in tr['chunks']]
+        if w['op'] == 'line':
+            new = c15.line_trace([''.join(map(chr, i)) for i in tr['items']], ''.join(map(chr, tr['tail'])),
+                                 sizes, mode='plain')
+        else:
+            p, order = w['config'][2:].split(',')
+            new = c15.lp_trace([bytes(i) for i in tr['items']], tr['cutoff'], sizes, int(p), order, mode='plain')
+        v, _ = muxprops.framing_timing_verdicts(w['op'], [new], w['config'])
+        print('replay verdict:', v[0])
+        print('chunk sizes:', sizes)
+        print('items emitted per chunk:', [len(o) for o in new['outs']], 'at completion:', len(new['final']), new['ended'])
+        if not (v[0][0] == 'ACCEPT' and v[0][2] is True):
+            print('VIOLATION property=%s replay=%s clause=framing-emission-time' % (prop, path))
+            return 1
+        return 0
     case = {'pipe': json.loads(w['pipe']), 'mode': w['mode'], 'src': w['src'],
             'timescale': w.get('timescale')}
     if w.get('multi'):
